@@ -1,4 +1,4 @@
-HOOK_COMMITS = []
+HOOK_COMMITS = ["cc2d331"]
 NOT_CLAIMED = {}
 NOTES = ("All checks are generated-input searches against explicit oracles (property-based testing / fuzzing). "
          "./check <ID> rebuilds AsmJit from /repo's working tree with ASan+UBSan and ASMJIT_ASSERT active, runs the harness on all "
